@@ -6,6 +6,16 @@
 (*   evict   Evict(pod) received by the recording executor on behalf of task `task`, *)
 (*           with the executor's answer `ok`                                        *)
 (*   ret     the returned ReleaseList                                               *)
+(* Several ROUNDS of the real entry point (cpuEvict / memoryEvict with the real      *)
+(* Evictor on a fake API server) in one segment:                                     *)
+(*   reset   the pods (attributes), no tasks yet                                     *)
+(*   round   a round begins: the pods still present, the tasks that fire (targets,   *)
+(*           candidate lists as built by the real strategy code for this state)      *)
+(*   seen / evict   as above                                                         *)
+(*   end     the entry point returned (its ReleaseList is not observable)            *)
+(* A pod counts as already evicted in a round iff an Evict call on it succeeded in   *)
+(* an earlier round of the segment (or the loop was told so then) and it is still    *)
+(* present - derived HERE from the history, not reported by the harness.             *)
 (* Every event must be a step the PROPERTY level of Evict.tla allows.               *)
 EXTENDS Evict, TraceCommon
 
@@ -34,11 +44,24 @@ TRet   == /\ IsEvent("ret")
                      released |-> ExpectedRelease(cs, victims)])
           /\ UNCHANGED vars
 
+\* a new round: victims of the rounds so far that are still present are "already evicted, still terminating"
+NextPods(C, present, V) ==
+  [p \in {q \in DOMAIN C.pods : q \in present} |-> [C.pods[p] EXCEPT !.already = (@ \/ p \in V)]]
+TRound == /\ IsEvent("round")
+          /\ cs' = [[cs EXCEPT !.tasks = Ev.tasks] EXCEPT !.pods = NextPods(cs, Rng(Ev.present), victims)]
+          /\ victims' = {} /\ tried' = {}
+          /\ UNCHANGED mvars
+
+\* the entry point returned: no premature stop (the ReleaseList stays inside the entry point)
+TEnd   == /\ IsEvent("end")
+          /\ Expect(Holds(PrOK(cs, victims, tried)), [Pr |-> PrOK(cs, victims, tried)])
+          /\ UNCHANGED vars
+
 TraceInit == \E i \in Starts :
                 /\ TraceStart(i)
                 /\ cs = Trace[i]
                 /\ victims = {} /\ tried = {}
                 /\ ti = 0 /\ pi = 0 /\ rel = <<>> /\ viol = FALSE /\ violS = FALSE
-TraceNext == TSeen \/ TEvict \/ TRet \/ (SegDone /\ UNCHANGED vars)
+TraceNext == TSeen \/ TEvict \/ TRet \/ TRound \/ TEnd \/ (SegDone /\ UNCHANGED vars)
 TraceSpec == TraceInit /\ [][TraceNext]_<<vars, tvars>>
 =============================================================================
